@@ -649,6 +649,9 @@ def beta_case(draw):
                 form=draw(st.sampled_from(["cartesian", "keplerian", "equinoctial"])), frame="EME2000",
                 past=draw(detours()), scale=draw(st.sampled_from(SCALES)), ref_scale=draw(st.sampled_from(SCALES)))
     case["t"] = draw(instants_us(2000, 2030))
+    # the form the other spacecraft is held in when it is handed over (and, one time in three, at the very date of the orbit)
+    case["ref_form"] = draw(st.sampled_from(["cartesian", "cartesian", "keplerian", "keplerian_mean", "equinoctial", "spherical"]))
+    case["ref_same_date"] = draw(st.integers(0, 2)) == 0
     if ref == "Sun" and draw(st.integers(0, 4)) == 0:
         case["frame"] = "Moon"
     elif ref in ("Sun", "Moon"):
@@ -708,7 +711,8 @@ def check_beta(case):
         rel["i"] = min(max(rel["i"], 0.05), math.pi - 0.05)      # it goes through the Kepler propagator: regular elements
         rel["e"] = max(rel["e"], 1e-3)
         rc = tb.kep2cart(rel["a"], rel["e"], rel["i"], rel["raan"], rel["argp"], rel["nu"], mu)
-        arg = Orbit(rc, relabel(date - timedelta(seconds=case["ref_dt"]), case.get("ref_scale")), "cartesian", "EME2000", "Kepler")
+        ref_dt = 0.0 if case.get("ref_same_date") else case["ref_dt"]
+        arg = Orbit(rc, relabel(date - timedelta(seconds=ref_dt), case.get("ref_scale")), "cartesian", "EME2000", "Kepler")
         dt = (date - arg.date).total_seconds()
         d = tb.propagate_uv(rc, dt, mu)[:3]
     else:
@@ -734,6 +738,9 @@ def check_beta(case):
             raise RuntimeError("generator: no regular orbit found for the spacecraft on the orbit normal")
         arg = Orbit(rc, relabel(date, case.get("ref_scale")), "cartesian", "EME2000", "Kepler")
         d = pos
+    ref_form = case.get("ref_form", "cartesian")
+    if ref in ("orbit", "aligned") and ref_form != "cartesian":
+        arg = arg.copy(form=ref_form)
     with np.errstate(all="ignore"):
         b = float(beta(orb, arg))
     # elevation of the body above the orbit plane = pi/2 - angle(h, d), by atan2 (well conditioned everywhere)
@@ -749,13 +756,18 @@ def check_beta(case):
     # asin loses eps / cos(beta) near the poles (at most sqrt(2 eps)); form conversions lose eps * kappa
     eps = 1e-13 * (1 + (k if (case["form"] != "cartesian" or past["mode"] != "fresh") else 0))
     tol = 1e-9 + min(math.sqrt(2 * eps), eps / max(math.cos(want), 1e-300))
+    if ref in ("orbit", "aligned") and ref_form != "cartesian":
+        tol += 1e-10   # the other spacecraft's own form round trip
+        cls_extra = [f"ref_form:{ref_form}"]
+    else:
+        cls_extra = []
     if ref == "orbit":
         tol += 1e-9 / (1 - case["ref_el"]["e"])  # the library's own Kepler propagation of the other spacecraft
     err = abs(b - want)
     if err > tol:
         raise Violation("beta-definition", f"beta = {b!r}, elevation of {ref} above the orbit plane = {want!r} "
                         f"(diff {err:.3g}, tol {tol:.3g})")
-    cls = [f"ref:{ref}", f"frame:{case['frame']}"]
+    cls = [f"ref:{ref}", f"frame:{case['frame']}"] + cls_extra
     if abs(want) > math.radians(89.9):
         cls.append("|beta|>89.9deg")
     if el["e"] > 1:
